@@ -43,6 +43,19 @@ PROPS = {
         "trusted_base": COMMON_TB,
         "assumptions": ["u64 overflow of chunk_index*chunk_size excluded", "serde_json round trip of the configuration is exercised (via=meta), not modelled"],
     },
+    "C07": {
+        "lean_props": ["ZarrsModel.Props.C07"],
+        "harness": "c07",
+        "rule": "every case of the C01 generator (random array configurations over all registered codecs incl. nested sharding, regular/rectangular grids, 12 data types, elision on/off; one fifth with "
+                "experimental partial encoding enabled on the synchronous side) with 1..10 (thorough 30) write operations, interleaved reads of all kinds, partial-decoder requests of 1-3 sub-boxes, key "
+                "listings, a contents comparison through fresh handles, re-opening and full reads; each line executed through the sync and the async API; plus 150 (thorough 1500) hierarchy histories whose "
+                "queries run in both forms; non-trivial = distinct request whose common outcome is a non-empty value / key list / node list",
+        "nontrivial": lambda l: "MISMATCH" not in l and ((" -> val " in l and not l.endswith("~")) or (" -> keys " in l and not l.endswith("~")) or " -> nodes /" in l),
+        "exhaustive": False,
+        "trusted_base": COMMON_TB + ["the async executor (tokio current-thread) and the harness' async adapter over MemoryStore"],
+        "assumptions": ["both stores start empty with the same metadata document", "error classes are compared as ok/err/none"],
+        "timeout": 3000,
+    },
     "C12": {
         "claimed": False,
         "lean_props": ["ZarrsModel.Props.C12"],
